@@ -60,6 +60,49 @@ def masked(model, impl):
     return " ".join(_unparse(x) for x in _mask(pm, pg))
 
 
+def unreset(case, model, impl):
+    """(model', impl'): DecodeResult tells a target the block's type (Infer), checks it, and only then resets and decodes
+    it.  In a FAILED block the target at which it stopped and the ones after it were not reset; where such a target was
+    told another type in that block (an Enum8 column told Enum16 keeps its numbers in the field of the other width), what it
+    holds is unspecified until the next block resets it.  The contents of such a target are not compared (its name, type,
+    Rows() and the readability of its rows still are)."""
+    pc, pm, pg = _parse(case), _parse(model), _parse(impl)
+    if pc is None or pm is None or pg is None or len(pc) < 7 or not isinstance(pc[5], list) or not pm or not pg:
+        return model, impl
+    seq = pm[0] == "seq"
+    if seq != (pg[0] == "seq"):
+        return model, impl
+    bm = pm[1:] if seq else [pm]
+    bg = pg[1:] if seq else [pg]
+    if len(bm) != len(bg):
+        return model, impl
+    prev = pc[5]
+    changed = False
+    for xm, xg in zip(bm, bg):
+        if not (isinstance(xm, list) and isinstance(xg, list) and xm and xg and xm[0] == xg[0]):
+            return model, impl
+        if xm[0] == "ok" and len(xm) >= 4 and len(xg) >= 4:
+            tm, tg = xm[3], xg[3]
+        elif xm[0] == "fail" and len(xm) >= 2 and len(xg) >= 2:
+            tm, tg = xm[1], xg[1]
+        else:
+            return model, impl
+        if not (isinstance(tm, list) and isinstance(tg, list) and len(tm) == len(tg)):
+            return model, impl
+        if xm[0] == "fail" and isinstance(prev, list) and len(prev) == len(tm):
+            for p, a, b in zip(prev, tm, tg):
+                if (isinstance(p, list) and isinstance(a, list) and isinstance(b, list) and len(p) >= 3 and len(a) >= 3
+                        and len(b) == len(a) and _unparse(p[1]) != _unparse(a[1])):
+                    a[-1] = "?"
+                    b[-1] = "?"
+                    changed = True
+        prev = tm
+    if not changed:
+        return model, impl
+    un = lambda p: " ".join(_unparse(x) for x in p)
+    return un(pm), un(pg)
+
+
 def explore(res, scale=1, seed=None):
     seed = res.seed if seed is None else seed
     wd = C.workdir(res.pid)
@@ -81,8 +124,13 @@ def explore(res, scale=1, seed=None):
         model = ["-"] * len(rows)
         for i, m in zip(todo, evald):
             model[i] = m
-        rows_m = [(c, masked(m, g), o) for (c, g, o), m in zip(rows, model)]
-        C.compare_rows(res, rows_m, model, "correspondence(result blocks,%s)" % build[0])
+        rows_m, model_m = [], []
+        for (c, g, o), m in zip(rows, model):
+            if g != "-" and m != "-" and " fail " in " " + g + " ":
+                m, g = unreset(c, m, g)
+            rows_m.append((c, masked(m, g), o))
+            model_m.append(m)
+        C.compare_rows(res, rows_m, model_m, "correspondence(result blocks,%s)" % build[0])
         res.account(rows)
         total += len(rows)
         for k, v in stats.items():
